@@ -22,12 +22,6 @@ pub enum Outcome {
     Aborted(String),
 }
 
-impl Outcome {
-    pub fn is_violation(&self) -> bool {
-        matches!(self, Outcome::Violation(_))
-    }
-}
-
 #[derive(Clone, Debug, Default, Serialize)]
 pub struct Stats {
     pub runs: u64,
